@@ -224,6 +224,7 @@ func progressPhase(run *vkit.Run, n int) *feedModel {
 		}
 		localProb := []float64{0, 0.2, 0.5}[rng.Intn(3)]
 		r.localPut = func(int) bool { return r.rng.Float64() < localProb }
+		r.localAny = true
 		big := rng.Intn(8) == 0
 		rounds, kinds := 0, map[string]bool{}
 		type rr struct {
